@@ -131,6 +131,9 @@ fn neighbours(s: &str, rng: &mut Rng, all: bool) -> Vec<String> {
         out.push(format!("{}{}", s, "\u{0}".repeat(n)));
     }
     out.push(format!("{}{}", s, s));
+    // names colliding with the spelling under common hand-written string hashes (anagrams for
+    // commutative folds, shifted pairs for the polynomial hashes with base 31 / 33 / 37)
+    out.extend(crate::mutate::hash_lookalikes(s));
     for w in REAL_WORLD {
         out.push(w.to_string());
     }
